@@ -173,6 +173,7 @@ def run_shards(module, tier, seed, nshards, timeout, extra_env=None):
     env['PYTHONDONTWRITEBYTECODE'] = '1'
     env['PYTHONPATH'] = VERIF + os.pathsep + env.get('PYTHONPATH', '')
     env.setdefault('PYTHONHASHSEED', '0')
+    env['TMPDIR'] = out_dir        # diskcache's own mkdtemp() calls land in scratch that is removed below
     if extra_env:
         env.update(extra_env)
     try:
